@@ -8,7 +8,10 @@ LEAN_SETTING_NOTE = (
     "the solver satisfies H0 V - V H0 = z on upper blocks and on eliminated diagonal elements, preserves orders and is adjoint-compatible "
     "on diagonal blocks; kept x eliminated products have no kept element in blocks whose commuting flag is set.  Each field is either a "
     "fact about block series / the Cauchy product (C18 bridge, not mechanised: A-MATH) or a call-site obligation discharged by PyVC units "
-    "listed in this evidence (masks, solver, flags) when present."
+    "listed in this evidence (masks, solver, flags) when present.  The two-block-optimised variant of `main` (two_block_optimized = True: exactly two "
+    "blocks, no fully_diagonalize) is covered by PV/TwoBlock.lean: under the class TwoBlocks (no eliminated or non-commuting diagonal part; products of "
+    "block-diagonal / block-off-diagonal elements are block-diagonal / off-diagonal as for 2 x 2 block matrices - A-MATH; the flag is set only in that "
+    "situation - PyVC obligation of unit bd_masks) every solution of the optimised equations solves the general equations (PV.TB.toMain), so all theorems apply."
 )
 
 
